@@ -353,7 +353,8 @@ def adversarial_cases(tier, first_id):
 
 def check_C05(tier):
     t0 = time.time()
-    fams = [("core", 5), ("mini", 6)] if tier == "quick" else L.TIERS_OBS["thorough"]
+    # (multi-byte characters next to classes, flags, escapes and faults: case, cls2, errs)
+    fams = [("core", 5), ("mini", 6), ("case", 4), ("cls2", 3), ("errs", 4), ("bnd", 4), ("punct", 3)] if tier == "quick" else L.TIERS_OBS["thorough"]
     cases = L.family_cases(tier, fams)
     cases += L.text_cases(tier, len(cases) + 1)
     cases += adversarial_cases(tier, len(cases) + 1)
@@ -854,12 +855,27 @@ def filters_check(prop, tier):
     # 2. scenarios enumerated by TLC, executed by the real walker, traces validated
     count = 200 if tier == "quick" else 2500
     interesting = lambda s: any(x != "keep" for lv in s["layers"] for x in lv)
-    scs = sample_model_scenarios(tier, rnd, count, W.mc_consts(4, 2), "n4l2", interesting)
+    # a third of them: a non-directory is discarded as a tree while another directory (with a child) exists -
+    # the cancellation must be a no-op there, whatever the order in which the siblings are read
+    def file_as_tree(s):
+        n = s["n"]
+        par = W.parent_list(s)
+        dirs_with_child = {par[i] for i in range(1, n)} - {1}
+        return bool(dirs_with_child) and any(s["kind"][i] != "dir" and lv[i] == "tree" for lv in s["layers"] for i in range(n))
+    scs = sample_model_scenarios(tier, rnd, count - count // 3, W.mc_consts(4, 2), "n4l2", interesting)
+    fat = sample_model_scenarios(tier, rnd, count // 3, W.mc_consts(4, 2), "n4l2", file_as_tree)
+    scs += fat
     scenarios = []
     pairs = []
     for sc in scs:
         h = W.from_model(sc, len(scenarios) + 1)
         scenarios.append(h)
+        if sc in fat:
+            # the same scenario with other names: the directory is read in another order
+            for names in (["root", "n5", "n4", "n3", "n2"], ["root", "b", "a", "d", "c"]):
+                h3 = W.from_model(sc, len(scenarios) + 1, names=names)
+                h3["origin"] = "model, other names"
+                scenarios.append(h3)
         if prop == "C16":
             # the same scenario with the two layers in the opposite order
             h2 = W.from_model(dict(sc, layers=list(reversed(sc["layers"]))), len(scenarios) + 1)
